@@ -231,9 +231,15 @@ func decodeBytecodeV2(bc *Bytecode, r *bytes.Buffer) error {
 				return err
 			}
 
-			sz := obj.(ugo.Int)
+			sz, ok := obj.(ugo.Int)
+			if !ok {
+				return errors.New("invalid FileSet size type:" + obj.TypeName())
+			}
 			if sz <= 0 {
 				continue
+			}
+			if err = checkSize(r, int64(sz)); err != nil {
+				return err
 			}
 
 			data := make([]byte, sz)
@@ -252,21 +258,33 @@ func decodeBytecodeV2(bc *Bytecode, r *bytes.Buffer) error {
 				return err
 			}
 
-			bc.Main = f.(*ugo.CompiledFunction)
+			main, ok := f.(*ugo.CompiledFunction)
+			if !ok {
+				return errors.New("invalid Main type:" + f.TypeName())
+			}
+			bc.Main = main
 		case 2:
 			obj, err := DecodeObject(r)
 			if err != nil {
 				return err
 			}
 
-			bc.Constants = obj.(ugo.Array)
+			constants, ok := obj.(ugo.Array)
+			if !ok {
+				return errors.New("invalid Constants type:" + obj.TypeName())
+			}
+			bc.Constants = constants
 		case 3:
 			num, err := DecodeObject(r)
 			if err != nil {
 				return err
 			}
 
-			bc.NumModules = int(num.(ugo.Int))
+			n, ok := num.(ugo.Int)
+			if !ok {
+				return errors.New("invalid NumModules type:" + num.TypeName())
+			}
+			bc.NumModules = int(n)
 		default:
 			return errors.New("unknown field:" + strconv.Itoa(int(field)))
 		}
@@ -297,7 +315,7 @@ func DecodeObject(r io.Reader) (ugo.Object, error) {
 			return nil, err
 		}
 
-		buf := make([]byte, 2+size)
+		buf := make([]byte, 2+int(size))
 		buf[0] = btype
 		buf[1] = size
 		if size > 0 {
@@ -349,6 +367,9 @@ func DecodeObject(r io.Reader) (ugo.Object, error) {
 
 		if value < 0 {
 			return nil, errors.New("negative value")
+		}
+		if err = checkSize(r, value); err != nil {
+			return nil, err
 		}
 
 		n := 1 + len(readBytes)
@@ -665,6 +686,9 @@ func (o *String) UnmarshalBinary(data []byte) error {
 		return nil
 	}
 
+	if size > int64(len(data)) {
+		return errors.New("invalid ugo.String data size")
+	}
 	ub := 1 + offset + int(size)
 	if len(data) < ub {
 		return errors.New("invalid ugo.String data size")
@@ -707,6 +731,9 @@ func (o *Bytes) UnmarshalBinary(data []byte) error {
 		return nil
 	}
 
+	if size > int64(len(data)) {
+		return errors.New("invalid ugo.Bytes data size")
+	}
 	ub := 1 + offset + int(size)
 	if len(data) < ub {
 		return errors.New("invalid ugo.Bytes data size")
@@ -765,6 +792,9 @@ func (o *Array) UnmarshalBinary(data []byte) error {
 	if size <= 0 {
 		return nil
 	}
+	if size > int64(len(data)) {
+		return errors.New("invalid ugo.Array data size")
+	}
 	ub := 1 + offset + int(size)
 	if len(data) < ub {
 		return errors.New("invalid ugo.Array data size")
@@ -777,6 +807,11 @@ func (o *Array) UnmarshalBinary(data []byte) error {
 	length, err := vi.read()
 	if err != nil {
 		return err
+	}
+
+	// every element takes at least one byte
+	if length < 0 || length > int64(rd.Len()) {
+		return errors.New("invalid ugo.Array length")
 	}
 
 	arr := make([]ugo.Object, 0, int(length))
@@ -840,7 +875,7 @@ func (o *Map) UnmarshalBinary(data []byte) error {
 		return nil
 	}
 
-	if len(data) < 1+offset+int(size) {
+	if size > int64(len(data)) || len(data) < 1+offset+int(size) {
 		return errors.New("invalid ugo.Map data size")
 	}
 
@@ -849,6 +884,10 @@ func (o *Map) UnmarshalBinary(data []byte) error {
 	var vi varintConv
 	vi.reader = rd
 	m := *o
+	if m == nil {
+		m = Map{}
+		*o = m
+	}
 
 	for rd.Len() > 0 {
 		value, err := vi.read()
@@ -858,6 +897,9 @@ func (o *Map) UnmarshalBinary(data []byte) error {
 
 		var k string
 		if value > 0 {
+			if value > int64(rd.Len()) {
+				return errors.New("invalid ugo.Map key size")
+			}
 			strBuf.Reset()
 			if _, err = io.CopyN(strBuf, rd, value); err != nil {
 				return err
@@ -989,6 +1031,10 @@ func (o *CompiledFunction) UnmarshalBinary(data []byte) error {
 		return nil
 	}
 
+	if size > int64(len(data)) || len(data) < 1+offset+int(size) {
+		return errors.New("invalid ugo.CompiledFunction data size")
+	}
+
 	rd := bytes.NewReader(data[1+offset : 1+offset+int(size)])
 	var vi varintConv
 	vi.reader = rd
@@ -1016,7 +1062,11 @@ func (o *CompiledFunction) UnmarshalBinary(data []byte) error {
 			if err != nil {
 				return err
 			}
-			o.Instructions = obj.(ugo.Bytes)
+			insts, ok := obj.(ugo.Bytes)
+			if !ok {
+				return errors.New("invalid Instructions type:" + obj.TypeName())
+			}
+			o.Instructions = insts
 		case 3:
 			o.Variadic = true
 		case 4:
@@ -1027,6 +1077,10 @@ func (o *CompiledFunction) UnmarshalBinary(data []byte) error {
 				return err
 			}
 
+			// every key and value takes at least one byte
+			if length < 0 || length > int64(rd.Len()) {
+				return errors.New("invalid SourceMap length")
+			}
 			sz := int(length / 2)
 			// always put size to the map to decode faster
 			o.SourceMap = make(map[int]int, sz)
@@ -1195,6 +1249,10 @@ func (sf *SourceFile) UnmarshalBinary(data []byte) error {
 		return err
 	}
 
+	// every line takes at least one byte
+	if v < 0 || v > int64(rd.Len()) {
+		return errors.New("invalid SourceFile lines length")
+	}
 	length := int(v)
 
 	lines := make([]int, length)
@@ -1257,12 +1315,19 @@ func (sfs *SourceFileSet) UnmarshalBinary(data []byte) error {
 		return err
 	}
 
+	// every file takes at least one byte
+	if v < 0 || v > int64(rd.Len()) {
+		return errors.New("invalid SourceFileSet files length")
+	}
 	length := int(v)
 	files := make([]*parser.SourceFile, length)
 
 	for i := 0; i < length; i++ {
 		v, err = vi.read()
 		if err != nil {
+			return err
+		}
+		if err = checkSize(rd, v); err != nil {
 			return err
 		}
 		data := make([]byte, v)
@@ -1281,6 +1346,19 @@ func (sfs *SourceFileSet) UnmarshalBinary(data []byte) error {
 	}
 
 	sfs.Files = files
+	return nil
+}
+
+// checkSize returns an error if size is negative or, when the number of unread
+// bytes of r is known, greater than that: nothing is allocated for data that
+// cannot be there.
+func checkSize(r io.Reader, size int64) error {
+	if size < 0 {
+		return errors.New("negative size")
+	}
+	if lr, ok := r.(interface{ Len() int }); ok && size > int64(lr.Len()) {
+		return io.ErrUnexpectedEOF
+	}
 	return nil
 }
 
